@@ -366,8 +366,8 @@ func signature(sc *scenario, d *diff) map[string]string {
 func runReal(env *hsreal.Env, sc *scenario) *hsreal.Result {
 	cfg := hsreal.Concretise(sc.Cfg, sc.BName)
 	r := hsreal.Run(env, cfg, hsreal.Opts{Timeout: 1500 * time.Millisecond})
-	if r.C.TimedOut || r.S.TimedOut {
-		r = hsreal.Run(env, cfg, hsreal.Opts{Timeout: 6 * time.Second})
+	if r.C.TimedOut || r.S.TimedOut || r.C.AppTimedOut || r.S.AppTimedOut {
+		r = hsreal.Run(env, cfg, hsreal.Opts{Timeout: 15 * time.Second})
 	}
 	return r
 }
